@@ -55,19 +55,23 @@ Definition rl_len (rl : reglist) : nat :=
 Definition rl_all (rl : reglist) : list reg :=
   l_numbers rl ++ l_texts rl ++ l_enums rl ++ l_fieldlists rl.
 
-(* sort.SliceStable by Sort(): insertion sort; the head is inserted before the already
+(* sort.SliceStable by a key: insertion sort; the head is inserted before the already
    sorted later elements with an equal key, so equal keys keep their input order *)
-Fixpoint insert_stable (x : reg) (l : list reg) : list reg :=
-  match l with
-  | [] => [x]
-  | y :: r => if r_sort x <=? r_sort y then x :: l else y :: insert_stable x r
-  end.
+Section SortBy.
+  Context {A : Type} (key : A -> Z).
+  Fixpoint insert_by (x : A) (l : list A) : list A :=
+    match l with
+    | [] => [x]
+    | y :: r => if key x <=? key y then x :: l else y :: insert_by x r
+    end.
+  Fixpoint sort_by (l : list A) : list A :=
+    match l with
+    | [] => []
+    | x :: r => insert_by x (sort_by r)
+    end.
+End SortBy.
 
-Fixpoint sort_stable (l : list reg) : list reg :=
-  match l with
-  | [] => []
-  | x :: r => insert_stable x (sort_stable r)
-  end.
+Definition sort_stable (l : list reg) : list reg := sort_by r_sort l.
 
 (* GetRegisters *)
 Definition rl_get_registers (rl : reglist) : list reg := sort_stable (rl_all rl).
